@@ -91,7 +91,15 @@ fn native_for<G: ark_ec::AffineRepr + 'static>(kind: &str, rp: &serde_json::Valu
         "c04bits" => scen_c04::bitflip_native::<G>(seed, rp["stride"].as_u64().unwrap_or(3) as usize),
         "c08" => scen_native::c08_native::<G>(seed, rp["maxlen"].as_u64().unwrap_or(3) as usize),
         "c11" => scen_native::c11_native::<G>(seed, torsion),
-        "c12" => scen_native::c12_native::<G>(rp["maxlen"].as_u64().unwrap_or(3) as usize + 1),
+        "c12" => {
+            // several curves in ONE process (a per-process cache shared between curves would show here)
+            let ml = rp["maxlen"].as_u64().unwrap_or(3) as usize + 1;
+            let mut v = scen_native::c12_native::<Zorro>(ml);
+            v.extend(scen_native::c12_native::<G>(ml));
+            v.extend(scen_native::c12_native::<Ed>(ml));
+            v.extend(scen_native::c12_native::<Secq>(ml));
+            v
+        }
         "c17" => scen_c17::capacity_grid::<G>(&shape(), seed, || Box::new(job::PlainVals::<r1cs::FOf<G>>::new(HashMap::new(), seed))),
         "c04" => {
             let case: scen_c04::C04Case = serde_json::from_value(rp["case"].clone()).unwrap();
